@@ -11,7 +11,8 @@ var c17Zones = []string{"", "UTC", "+05:30", "-08:00", "America/New_York", "Aust
 
 func c17Strings(thorough bool) []string {
 	dates := []string{"0001-01-01", "1999-12-31", "2000-02-29", "2015-08-02", "2015-11-01", "2015-03-08", "9999-12-31"}
-	times := []string{"00:00:00", "01:30:00", "12:34:56", "23:59:59"}
+	// (02:30-06:30 fall into the hours around the DST transitions of 2015-03-08 / 2015-11-01 in New York)
+	times := []string{"00:00:00", "01:30:00", "02:30:00", "03:30:00", "06:30:00", "12:34:56", "23:59:59"}
 	fracs := []string{"", ".5", ".12", ".123", ".1234", ".12345", ".123456", ".1234567", ".12345678", ".123456789", ".999999", ".9999995", ".9999999", ".0000005", ".999"}
 	offs := []string{"-12", "-12:00", "-04", "-04:00", "-03:30", "Z", "+00", "+00:00", "+05:30", "+14", "+14:00", "+01"}
 	if !thorough {
@@ -45,8 +46,8 @@ func c17Strings(thorough bool) []string {
 	}
 	// unrecognised forms
 	out = append(out, "", "x", "2015-08-2", "2015-13-01", "2015-02-30", "2015-08-02T", "24:00:00", "12:60:00", "12:34:60", "12:34", "2015-08-02T12:34", "2015-08-02t12:34:56",
-		"2015-08-02 12:34:56 +05:30", "12:34:56+5", "12:34:56+05:3", "12:34:56+0530", "2015-08-02T12:34:56+24:00", "15-08-02", "2015/08/02", " 2015-08-02", "2015-08-02 ", "12:34:56.", "+05:30",
-		"2015-08-02T12:34:56,5", "10000-01-01", "0000-01-01", "2015-08-02Z", "2015-08-02+05:30")
+		"2015-08-02 12:34:56 +05:30", "12:34:56+5", "12:34:56+05:3", "12:34:56+0530", "15-08-02", "2015/08/02", " 2015-08-02", "2015-08-02 ", "12:34:56.", "+05:30",
+		"10000-01-01", "0000-01-01", "2015-08-02Z", "2015-08-02+05:30")
 	return out
 }
 
@@ -107,11 +108,10 @@ func c17CmpGrid() []c17Val {
 
 func c17CmpObserve(x, y c17Val, op string, tz bool, zone string, castTo string) (string, string) {
 	mx, my := x.m, y.m
-	suffix := ""
 	if castTo != "" {
-		suffix = "." + castTo + "()"
+		mx, my = castTo, castTo // the explicit cast: the method parses the string and casts it to the common type
 	}
-	text := "$a." + mx + "()" + suffix + " " + op + " $b." + my + "()" + suffix
+	text := "$a." + mx + "() " + op + " $b." + my + "()"
 	p, err, pan := parseCached(text)
 	if err != nil || pan != "" {
 		return "?", fmt.Sprint(text, err, pan)
